@@ -109,7 +109,7 @@ pub fn units(tier: Tier, seed: u64) -> Vec<UnitSpec> {
     let mut r = Rng::new(mix(&[seed, crate::rng::label("C16-units")]));
     let scale: u64 = match tier {
         Tier::Quick => 1,
-        Tier::Thorough => 12,
+        Tier::Thorough => 8,
     };
     let mut u = vec![];
     // hand-built structures first (cheap, and the ones most likely to kill a child)
@@ -140,7 +140,7 @@ pub fn units(tier: Tier, seed: u64) -> Vec<UnitSpec> {
         u.push(UnitSpec::Special { name: "deep-enigma".into(), depth: d });
     }
     // generated classes: mostly small, some medium, a few large; feature masks vary (swarm)
-    let n_gen = 150 * scale;
+    let n_gen = if scale == 1 { 220 } else { 150 * scale };
     for i in 0..n_gen {
         // large classes cost ~100 s of enumeration each: thorough tier only
         let size = match r.below(20) {
@@ -169,7 +169,7 @@ pub fn units(tier: Tier, seed: u64) -> Vec<UnitSpec> {
         u.push(UnitSpec::Corpus { idx: (start + k * 11) % n_corpus, reencode: true });
     }
     for kind in [Kind::Tiny, Kind::TinyDiff, Kind::Enigma, Kind::Nests] {
-        for _ in 0..(14 * scale) {
+        for _ in 0..(if scale == 1 { 20 } else { 14 * scale }) {
             u.push(UnitSpec::Text { kind, seed: r.next() });
         }
     }
